@@ -555,9 +555,13 @@ def call(n, env, cx, items):
     if f == "str" and len(n.args) == 1:
         t, ty = ex(n.args[0], env, cx, items)
         return to_str(t, ty), STR
-    if f is not None and f.endswith("number_scientific.match") and len(n.args) == 1:
+    if f is not None and f.endswith("number_scientific.fullmatch") and len(n.args) == 1:
+        # the model's scanner `sciMatch` is the pattern anchored at both ends (the whole string is the number)
         t, ty = ex(n.args[0], env, cx, items, STR)
         return f"(sciMatch {t})", BOOL
+    if f is not None and f.endswith("number_scientific.match") and len(n.args) == 1:
+        raise Untranslatable("number_scientific applied with match (prefix only): the model's scanner is the pattern "
+                             "applied with fullmatch, a string with a number-like prefix (1e3x) would reach float()")
     if f == "any" and len(n.args) == 1 and isinstance(n.args[0], (ast.GeneratorExp, ast.ListComp)):
         g = n.args[0]
         it, pat, inner, _ = comprehension_source(g.generators, env, cx, items)
